@@ -19,6 +19,8 @@ uint64_t beValue(const nlohmann::json& a);
 ASAM::CMP::Packet makePacket(const nlohmann::json& p);
 void logBatchPacket(Out& o, const nlohmann::json& p);
 void snapPacket(Out& o, const ASAM::CMP::Packet& p);
+void snapStatus(Out& o, const ASAM::CMP::Status& st, const nlohmann::json& probe);
+void logPending(Out& o, const char* key, const ASAM::CMP::Decoder& dec);
 void logFrames(Out& o, const char* k, const std::vector<std::vector<uint8_t>>& frames);
 
 void runEnc(const nlohmann::json& ep);
